@@ -333,12 +333,53 @@ pub fn run(ctx: &mut Ctx) {
                     b.alias_anchor_min_aliases, b.alias_anchor_ratio_multiplier, pump_breach(&r)), json!({"kind": "pump", "text": text, "opts": o.json()}));
             }
             ctx.case(t, nontrivial_doc, json!({"kind": "pump", "text": text, "opts": o.json()}));
+            // S4: the report reaches both kinds of callback unchanged (the delayed ratio breach included) and
+            // agrees with the outcome: breached is Some exactly when the parse fails with a budget error
+            ctx.direct_evaluations += 1;
+            let (res, by_closure, by_fn) = typed_with_both_callbacks(text, &b);
+            let show = |r: &Option<BudgetReport>| r.as_ref().map(|r| serde_json::to_string(r).unwrap_or_default());
+            if show(&by_closure) != show(&by_fn) {
+                ctx.fail("report-callbacks-differ", format!("with_budget_report closure got {:?}, the fn callback {:?} on {text:?}", show(&by_closure), show(&by_fn)),
+                    json!({"kind": "callbacks", "text": text, "budget": serde_json::to_value(&b).unwrap()}));
+            } else if let Some(rep) = &by_closure {
+                let budget_err = matches!(&res, Err(e) if coq::variant_name(e).contains("Budget"));
+                if (rep.breached.is_some() && res.is_ok()) || (rep.breached.is_none() && budget_err) {
+                    ctx.fail("report-breach-flag", format!("report.breached = {:?} but the parse result is {:?} on {text:?}", rep.breached, res.as_ref().map(|_| ()).map_err(|e| coq::variant_name(e))),
+                        json!({"kind": "callbacks", "text": text, "budget": serde_json::to_value(&b).unwrap()}));
+                }
+            }
         }
     }
 
     // ---- per-document enforcement: a document's acceptance never depends on the documents before it
     per_document(ctx, &texts);
     per_document_iterator(ctx);
+}
+
+thread_local! {
+    static FN_SEEN: std::cell::RefCell<Option<BudgetReport>> = const { std::cell::RefCell::new(None) };
+}
+fn fn_callback(report: &BudgetReport) {
+    FN_SEEN.with(|c| *c.borrow_mut() = Some(report.clone()));
+}
+/// from_str_with_options (untyped target) with both report callbacks registered: result, report seen by the
+/// closure, report seen by the fn pointer.
+fn typed_with_both_callbacks(text: &str, b: &Budget) -> (Result<crate::rt::Val, serde_saphyr::Error>, Option<BudgetReport>, Option<BudgetReport>) {
+    FN_SEEN.with(|c| *c.borrow_mut() = None);
+    let seen = std::rc::Rc::new(std::cell::RefCell::new(None));
+    let sink = seen.clone();
+    #[allow(deprecated)]
+    let mut o = serde_saphyr::Options::default();
+    #[allow(deprecated)]
+    {
+        o.budget = Some(b.clone());
+        o.budget_report = Some(fn_callback);
+        o.with_snippet = false;
+    }
+    let o = o.with_budget_report(move |r: BudgetReport| *sink.borrow_mut() = Some(r));
+    let res = crate::rt::from_str_rt(text, &crate::rt::Ty::Any, o);
+    let by_closure = seen.borrow().clone();
+    (res, by_closure, FN_SEEN.with(|c| c.borrow().clone()))
 }
 
 fn is_single_doc(text: &str) -> bool {
@@ -390,6 +431,7 @@ fn per_document(ctx: &mut Ctx, texts: &[String]) {
         need.max_nodes = maxu[5];
         need.max_total_scalar_bytes = maxu[6];
         need.max_merge_keys = maxu[7];
+        need.max_documents = 1; // every document alone is one document: the number already read must not matter
         let mut stream = String::new();
         for d in &docs {
             if !d.starts_with("---") {
@@ -524,6 +566,14 @@ fn replay(ctx: &mut Ctx, r: &serde_json::Value) {
                 if !ok {
                     ctx.fail("threshold", "replayed".into(), r.clone());
                 }
+            }
+        }
+        "callbacks" => {
+            let b: Budget = serde_json::from_value(r["budget"].clone()).unwrap();
+            let (res, c, f) = typed_with_both_callbacks(text, &b);
+            println!("replay callbacks: result {:?}\n  closure {:?}\n  fn      {:?}", res.map_err(|e| e.to_string()), c, f);
+            if c.as_ref().map(|r| serde_json::to_string(r).unwrap_or_default()) != f.as_ref().map(|r| serde_json::to_string(r).unwrap_or_default()) {
+                ctx.fail("report-callbacks-differ", "replayed".into(), r.clone());
             }
         }
         "typed_breach" => {
